@@ -93,9 +93,11 @@ def run(R: vlib.Run):
                     # --- channel mask
                     mask = nprng.integers(0, 2, nch).astype(bool)
                     mv = int(nprng.integers(0, hi))
+                    if nbits == 32 and gulp % 2 == 1:      # float files take any float32 fill: fractional, above 255, negative
+                        mv = float(rng.choice([2.5, 1000.0, -3.0, 0.125, 65536.5]))
                     R.case(("mask", nbits, start, nsamps, gulp, tuple(mask.tolist()), mv), nontrivial=multi, regime="mask")
                     if attempt("apply_channel_mask", lambda: fil.apply_channel_mask(mask, mv, outfile_name=out, gulp=gulp, start=start, nsamps=nsamps, quiet=True)):
-                        w = sel.copy(); w[:, mask] = mv
+                        w = sel.astype(np.float64); w[:, mask] = mv
                         check("apply_channel_mask", w, nbits, {"mask": mask.tolist(), "mask_value": mv})
                     # --- extract_samps
                     R.case(("samps", nbits, start, nsamps, gulp), nontrivial=multi, regime="extract_samps")
